@@ -2368,18 +2368,16 @@ class ColFn(ColExpr):
         # TODO: probably it is faster and produces nicer SQL code if we put this in
         # WITHIN GROUP for aggregation functions. On polars use col.filter().
         if filters := self.context_kwargs.get("filter"):
+            cond = functools.reduce(operator.and_, (cond for cond in filters))
             if len(self.args) == 0:
                 assert self.op == ops.count_star
+                # The number of rows satisfying the filter is the number of non-null values of a case
+                # expression without default.
+                self.op = ops.count
+                self.args = [CaseExpr([(cond, LiteralCol(True))])]
             else:
-                self.args[0] = CaseExpr(
-                    [
-                        (
-                            functools.reduce(operator.and_, (cond for cond in filters)),
-                            self.args[0],
-                        )
-                    ]
-                )
-                del self.context_kwargs["filter"]
+                self.args[0] = CaseExpr([(cond, self.args[0])])
+            del self.context_kwargs["filter"]
 
         super().__init__()
         # try to eagerly resolve the types to get a nicer stack trace on type errors
